@@ -61,7 +61,7 @@ Proof. unfold occ. symmetry. apply count_occ_In. Qed.
 (* levels of o's thread lock that thread-local state (pc) still accounts for *)
 Definition rel_need (p : pc) (o : oid) : nat :=
   match p with
-  | POpen a | PFlock a _ | PCloseF a _ | PSleep a _ | PCleanRel a _ => if Nat.eqb (a_o a) o then 1 else 0
+  | POpen a | PFlock a _ | PCloseF a _ _ | PSleep a _ | PCleanRel a _ => if Nat.eqb (a_o a) o then 1 else 0
   | PUnlock o' _ k | PCloseR o' _ k | PTLRel o' k => if Nat.eqb o' o then Nat.max 1 k else 0
   | _ => 0
   end.
@@ -77,7 +77,7 @@ Definition tail_need (p : pc) (o : oid) : nat :=
 (* an acquire of o is in progress after the thread lock was taken *)
 Definition inacq (p : pc) (o : oid) : nat :=
   match p with
-  | POpen a | PFlock a _ | PCloseF a _ | PSleep a _ => if Nat.eqb (a_o a) o then 1 else 0
+  | POpen a | PFlock a _ | PCloseF a _ _ | PSleep a _ => if Nat.eqb (a_o a) o then 1 else 0
   | _ => 0
   end.
 
